@@ -35,6 +35,7 @@ PROPS = {
     'C08': ['client'],
     'C09': ['client'],
     'C19': ['client'],
+    'C14': ['validators'],
     'C18': ['http'],
     'C20': ['mocker'],
     'C10': ['asyncsched'],
@@ -127,6 +128,9 @@ def main(argv=None):
 
 def run_check(prop, tier, seed, jobs, t0, build=True):
     known = core.load_known()
+    if core.REPLAYS.exists():
+        for old in core.REPLAYS.glob(f'{prop}-*.json'):
+            old.unlink()
     # ---- 1. proof obligations ------------------------------------------------------------------
     lib_ok, build_out = core.build() if build else (True, '')
     scan_hits = core.source_scan()
